@@ -33,7 +33,8 @@ ASSUMPTIONS = [
 ]
 REACH = {
     t: ["combos_all_48", "rstack_midstream", "error_frame", "ack_nak_rst_no_upward",
-        "wraps_1000", "pending_send_variant", "accepted", "dup_retx_acked", "out_of_seq_naked"]
+        "wraps_1000", "pending_send_variant", "accepted", "dup_retx_acked", "out_of_seq_naked",
+        "several_frames_in_one_read"]
     for t in ("quick", "thorough")
 }
 SHARD_TIMEOUT = {"quick": 600, "thorough": 2400}
@@ -97,6 +98,8 @@ def shards(tier, seed):
         walks, wl = 16, 400000
     for w in range(walks):
         out.append({"part": "walk", "n": wl, "seed": seed * 1000 + w, "pending": w % 2 == 1})
+    for start in range(8):
+        out.append({"part": "multi", "start": start, "acks": [0, 5], "seed": seed, "n": 400 if tier == "quick" else 4000})
     return out
 
 
@@ -165,6 +168,83 @@ class Stepper:
                           case, self.hist[-12:])
             return False
         return True
+
+
+def step_many(st: Stepper, syms, tags, case) -> bool:
+    """Several frames in ONE read: the answers must be those of the frames taken one after the other,
+    in the same order (one ACK / NAK per DATA frame, none merged away), and so must the deliveries."""
+    acc = st.acc
+    wires, want = [], []
+    before = st.ref.rx_seq
+    for sym, tag in zip(syms, tags):
+        w, fr = to_frame(sym, tag)
+        wires.append(w)
+        want += st.ref.receive(fr)
+        if fr.kind == "DATA" and fr.frm == (st.ref.rx_seq - 1) % 8 and st.ref.rx_seq == 0:
+            pass
+    mark = len(st.log)
+    try:
+        st.proto.data_received(b"".join(wires))
+    except Exception as e:  # noqa: BLE001
+        acc.violation("C04/raises", f"data_received raised {e!r} on well-formed {syms} in one read", case, st.hist[-12:])
+        return False
+    got = decode_writes(st.log[mark:])
+    got_tx = [g[:3] for g in got if g[0] == "tx"]
+    want_tx = [w[:3] for w in want if w[0] == "tx"]
+    got_up = [g for g in got if g[0].startswith("up")]
+    want_up = [w for w in want if w[0].startswith("up")]
+    st.hist.append((tuple(syms), "one read, expected from", before, "got", got_tx, got_up))
+    acc.ev("frames", len(syms))
+    acc.hit("several_frames_in_one_read")
+    if got_up != want_up:
+        acc.violation("C04/data/delivery-differs-in-multi-frame-read",
+                      f"frames {syms} in one read from expected number {before}: handed up {got_up}, rule says {want_up}", case, st.hist[-12:])
+        return False
+    if got_tx != want_tx:
+        acc.violation("C04/data/wrong-answer", f"frames {syms} in one read from expected number {before}: host answered {got_tx}, "
+                      f"rule says one answer per DATA frame, in order: {want_tx}", case, st.hist[-12:])
+        return False
+    return True
+
+
+def part_multi(desc) -> Acc:
+    """All pairs of frames in one read from every expected-number state, and seeded longer reads."""
+    acc = Acc()
+    syms = alphabet(desc["acks"])
+    start = desc["start"]
+    rnd = random.Random(desc["seed"] * 31 + start)
+    for a in syms:
+        for b in syms:
+            case = {"part": "multi", "start": start, "seq": [list(a), list(b)]}
+            acc.case()
+            st = Stepper(acc)
+            ok = all(st.step(("D", i, 0, 0), 0xFFFF, case) for i in range(start))
+            if ok:
+                step_many(st, [a, b], [1, 2], case)
+            acc.nontrivial((start, "pair", a, b))
+    for _ in range(desc.get("n", 400)):
+        k = rnd.choice([3, 3, 4, 5, 8])
+        st = Stepper(acc)
+        for i in range(start):
+            st.step(("D", i, 0, 0), 0xFFFF, {})
+        seq = []
+        exp = start
+        for _j in range(k):
+            if rnd.random() < 0.6:
+                seq.append(("D", exp, rnd.randrange(2), rnd.randrange(8)))
+                exp = (exp + 1) % 8
+            else:
+                seq.append(rnd.choice(syms))
+                if seq[-1][0] == "RSTACK":
+                    exp = 0
+                elif seq[-1][0] == "D" and seq[-1][1] == exp:
+                    exp = (exp + 1) % 8
+        case = {"part": "multi", "start": start, "seq": [list(x) for x in seq]}
+        acc.case()
+        step_many(st, seq, list(range(1, k + 1)), case)
+        acc.nontrivial((start, "read", tuple(seq)))
+    acc.sample({"start_expected": start, "frames_in_one_read": [list(syms[0]), list(syms[9])]})
+    return acc
 
 
 def run_seq(acc: Acc, start: int, seq, case, combos: set, stats):
@@ -288,6 +368,11 @@ def part_walk(desc) -> Acc:
 
 
 def run_shard(desc) -> Acc:
+    from .. import logmode
+
+    logmode.apply(desc)
+    if desc["part"] == "multi":
+        return part_multi(desc)
     if desc["part"] == "exh":
         acc = part_exh(desc, alphabet(desc["acks"]), desc["depth"], desc.get("first"))
     elif desc["part"] == "exh_small":
@@ -306,7 +391,13 @@ def post_merge(reach, tier):
 
 def replay(case) -> Acc:
     acc = Acc()
-    if case.get("part") == "seq":
+    if case.get("part") == "multi":
+        st = Stepper(acc)
+        for i in range(case["start"]):
+            st.step(("D", i, 0, 0), 0xFFFF, case)
+        step_many(st, [tuple(x) for x in case["seq"]], list(range(1, len(case["seq"]) + 1)), case)
+        print(st.hist[-3:])
+    elif case.get("part") == "seq":
         run_seq(acc, case["start"], [tuple(s) for s in case["seq"]], case, set(), None)
     elif case.get("part") == "walk":
         return part_walk({"seed": case["seed"], "n": case["n"], "pending": case["pending"]})
